@@ -211,6 +211,17 @@ def handleStart (j : Json) : Json :=
   Json.mkObj [("position", match Query.startAtom numbers start with | some i => Json.num i | none => Json.null),
               ("config", match Query.rootConfig suffix opt with | some c => Json.str (String.singleton c) | none => Json.null)]
 
+def handleAssemble (j : Json) : Json :=
+  let str (k : String) := ((j.getObjValAs? String k).toOption.getD "").toList
+  let chains : List (List Char × List Char) := match j.getObjVal? "chains" with
+    | .ok (Json.arr a) => a.toList.map (fun x => match x with
+        | Json.arr #[Json.str c, Json.str cc] => (c.toList, cc.toList)
+        | _ => ([], []))
+    | _ => []
+  let offset := (j.getObjValAs? Nat "offset").toOption.getD 0
+  Json.mkObj [("text", charsToJson (React.assembleText (str "marked") chains offset)),
+              ("certified", Json.bool (React.certifyAssemble (str "marked") chains offset (str "final")))]
+
 def handleReact (j : Json) : Json :=
   let str (k : String) := ((j.getObjValAs? String k).toOption.getD "").toList
   let nat (k : String) := (j.getObjValAs? Nat k).toOption.getD 0
@@ -248,6 +259,7 @@ def handle (line : String) : Json :=
     | some "cli" => handleCli j
     | some "gate" => handleGate j
     | some "create" => handleCreate j
+    | some "assemble" => handleAssemble j
     | some "match" => handleMatch j
     | some "start" => handleStart j
     | some "openform" => handleOpenForm j
